@@ -126,6 +126,16 @@ def run(ctx):
              "stack": rng.choice([31, 36, 50, 90, 150, 400])}
         c["id"] = "%s|m%d|s%d" % (pid, c["mem"], c["stack"])
         cases.append(c)
+    # fresh well-typed programs from the E5 generator, all profiles, at two small configurations
+    import tempfile, shutil
+    gdir = tempfile.mkdtemp(prefix="nvc01.", dir="/var/tmp")
+    try:
+        for gid, gpath, _ in vmcheck.generated_programs(gdir, ctx.seed + 17, 12 if ctx.tier == "quick" else 150):
+            gsrc = open(gpath, errors="replace").read()
+            for (mem, stack) in ((20000, 3000), (600, 3000), (20000, 120)):
+                cases.append({"id": "%s|m%d|s%d" % (gid, mem, stack), "src": gsrc, "pid": gid, "mem": mem, "stack": stack})
+    finally:
+        shutil.rmtree(gdir, ignore_errors=True)
     matrix = illtyped_matrix()
     cases += matrix
     # the indexing / slicing probe programs of the C12 engine (every guard path of the deref
